@@ -19,14 +19,15 @@ SEP_CONFIGS = [(",", "."), (".", ","), (".", ""), (",", "")]
 POOL_WORDS = ["zorp", "blip", "quux", "frob", "glorp", "snarf", "wibble", "foo", "bar", "baz", "qux", "ga", "bu", "meu", "zorps", "blips"]
 
 
-def all_config_words(include_zones=True):
+def all_config_words(include_zones=True, include_currencies=True):
     """every word that means something to the calculator, lower-cased (Appendix B)"""
     c = config_json()
     words = set()
-    for k in c.get("currencies", {}):
-        words.add(k.lower())
-    for k in c.get("currency_alias", {}):
-        words.add(k.lower())
+    if include_currencies:
+        for k in c.get("currencies", {}):
+            words.add(k.lower())
+        for k in c.get("currency_alias", {}):
+            words.add(k.lower())
     if include_zones:
         for k in c.get("timezones", {}):
             words.add(k.lower())
@@ -526,6 +527,15 @@ def date_texts(a, lang, all_names=False, salt=0):
 # ---------------------------------------------------------------------------------------------
 def rated_currencies():
     return sorted(k.lower() for k in config_json().get("currency_rates", {}))
+
+
+def unrated_currencies():
+    """configured currencies without an entry in the rate table whose code means nothing else (no unit, month, zone, keyword)"""
+    c = config_json()
+    rated = set(rated_currencies())
+    aliased = {v.lower() for v in c.get("currency_alias", {}).values()}
+    other = all_config_words(include_zones=True, include_currencies=False) | {k.lower() for k in c.get("currency_alias", {})}
+    return sorted(k.lower() for k in c.get("currencies", {}) if k.lower() not in rated and k.lower() not in other and k.lower() not in aliased and k.isalpha() and k.isascii())
 
 
 def currency_spellings(code):
